@@ -373,6 +373,8 @@ def run(ck, tier):
     F = factsmod.Facts("ws")
     from . import influence as _infl
     _infl.run(ck, F, 'C16')
+    from . import mustpass as _mp
+    _mp.run(ck, F, 'C16')
     run_send_sync(ck, F)
     api.no_impl(ck, F, "C16.no-mut-view", ["arrow_buffer", "arrow_data", "arrow_array"], SHARED_TYPES, MUT_TRAITS)
     ck.rule("C16.witness", "compile-fail witnesses for immutability of shared buffers")
